@@ -2,11 +2,27 @@
 import Driver.Prim
 import Driver.Fn
 import Driver.Stream
+import Driver.Conn
 
 namespace Driver
 
 structure St where
   prim : PrimState := {}
+  conns : List (Nat × ConnSlot) := []
+
+def St.getConn (s : St) (k : Nat) : Option ConnSlot := (s.conns.find? (·.1 == k)).map (·.2)
+def St.setConn (s : St) (k : Nat) (o : Option ConnSlot) : St :=
+  let rest := s.conns.filter (·.1 != k)
+  match o with
+  | some x => { s with conns := (k, x) :: rest }
+  | none => { s with conns := rest }
+
+/-- "conn" or "conn@k" -/
+def connId (w : String) : Option Nat :=
+  if w == "conn" then some 0
+  else match w.splitOn "@" with
+    | ["conn", k] => k.toNat?
+    | _ => none
 
 def step (s : St) (line : String) : St × String :=
   match line.trimAscii.toString.splitOn " " with
@@ -16,6 +32,10 @@ def step (s : St) (line : String) : St × String :=
   | "num" :: rest => (s, numOp rest)
   | "fn" :: rest => (s, fnOp rest)
   | "urlenc" :: rest => (s, urlencOp rest)
+  | w :: rest =>
+    match connId w with
+    | some k => let (o, out) := connOp (s.getConn k) rest; (s.setConn k o, out)
+    | none => (s, "bad-op")
   | _ => (s, "bad-op")
 
 partial def loop (h : IO.FS.Stream) (out : IO.FS.Stream) (s : St) : IO Unit := do
